@@ -19,7 +19,7 @@ Import ListNotations.
    features and, every iteration, the map) *)
 Theorem zero_mean_centres : forall N D (X : @buf Qc),
   N <> 0%nat -> centred N D (zero_mean N X).
-Proof. intros N D X HN. apply zero_mean_centres_thm. now apply Qc_of_nat_neq0. Qed.
+Proof. exact zero_mean_centres_Qc. Qed.
 Print Assumptions zero_mean_centres.
 
 (* computeSquaredEuclideanDistance after F10 (`+=`): DD[n,m] = |x_n - x_m|^2 *)
@@ -78,7 +78,7 @@ Proof. exact max_normalise_nonpositive. Qed.
 Print Assumptions max_normalise_constant_data.
 
 Example max_normalise_constant_data_nonvacuous : max_coeff [0; 0; 0]%Q = Some 0%Q /\ (0 <= 0)%Q.
-Proof. split; [reflexivity | discriminate]. Qed.
+Proof. exact max_normalise_constant_nonvacuous. Qed.
 
 Theorem max_normalise_refuted :
   max_normalise_shipped [0; 0; 0]%Q = Some (map (fun x => x / 0)%Q [0; 0; 0]%Q).
@@ -119,17 +119,21 @@ Theorem perplexity_row_sum : forall (expf logf : Q -> Q) (dbl_min : Q) self dd b
 Proof. exact normalised_sum. Qed.
 Print Assumptions perplexity_row_sum.
 
-(* H is the Shannon entropy of the stored row (oracles with log(exp x) = x and
-   log(a/b) = log a - log b; DBL_MIN counted as 0; K-NN overload) *)
-Theorem perplexity_H_is_entropy : forall (expf logf : Q -> Q) (dbl_min : Q),
-  (forall x, logf (expf x) == x)%Q ->
-  (forall a b, logf (a / b) == logf a - logf b)%Q ->
-  forall dd beta, (dbl_min == 0)%Q ->
+(* H is the Shannon entropy of the stored row; the only fact used about the oracles is, at the kernel
+   values of this row, log(exp(-beta d)/S) = -beta d - log S; DBL_MIN counted as 0; K-NN overload *)
+Theorem perplexity_H_is_entropy : forall (expf logf : Q -> Q) (dbl_min : Q) dd beta,
+  (dbl_min == 0)%Q ->
   let ev := evaluate expf logf dbl_min None dd beta in
   ~ (e_sum ev == 0)%Q ->
+  log_of_kernel expf logf beta (e_sum ev) dd ->
   (e_H ev == shannon expf logf beta (e_sum ev) dd)%Q.
 Proof. exact H_is_shannon_entropy. Qed.
 Print Assumptions perplexity_H_is_entropy.
+
+Example perplexity_H_is_entropy_nonvacuous :
+  (0 == 0)%Q /\ ~ (e_sum (evaluate (fun _ => 1%Q) ex_logf 0 None [0; 0]%Q 1) == 0)%Q /\
+  log_of_kernel (fun _ => 1%Q) ex_logf 1 (e_sum (evaluate (fun _ => 1%Q) ex_logf 0 None [0; 0]%Q 1)) [0; 0]%Q.
+Proof. exact H_is_shannon_entropy_nonvacuous. Qed.
 
 (* the bisection keeps 0 < min_beta <= beta <= max_beta *)
 Theorem perplexity_bracket : forall lp ev st,
